@@ -1,7 +1,8 @@
 (** C10 - Every entry point returns a value or an error, never a panic or a hang.  (partial)
     In the model a Go panic is the result [Panic] and unbounded recursion is [OutOfFuel].
-    Proved here: Validate returns Ok or Err whenever the specification defines a verdict
-    (resolved environment, recursion through instance-descending keywords within the fuel).
+    Proved here: Unmarshal is total (value or error, budget always sufficient); Validate
+    returns Ok or Err whenever the specification defines a verdict (resolved environment,
+    recursion through instance-descending keywords within the fuel).
     The remaining entry points and the malformed / adversarial inputs (arbitrary bytes, Schema
     graphs with nil, shared and cyclic pointers, failing loaders, odd Go values, recursive
     types) are decided by the correspondence families: every family's observation records
@@ -9,7 +10,7 @@
     "every call returns".  gen/ObPanics.v accounts for every explicit panic/assert site of
     the sources. *)
 From Coq Require Import List NArith ZArith QArith Bool.
-From JS Require Import Str Lit Json Res GoValue Hash Schema Env Ann Validate Spec Refine Corollaries.
+From JS Require Import Str Lit Json Res GoValue Hash Schema CodecBase Codec UnmarshalTotal Env Ann Validate Spec Refine Corollaries Defaults.
 Import ListNotations.
 
 Theorem C10_validate_returns : forall re_match hash n e inst b,
@@ -21,6 +22,16 @@ Proof.
   rewrite (Validate_spec re_match hash n e inst b Hw Hv Hs). destruct b; [left|right]; reflexivity.
 Qed.
 Print Assumptions C10_validate_returns.
+
+(** Unmarshal: on every document the codec returns a schema or an error - the model has no
+    Panic result here and the recursion budget (the document's size) always suffices *)
+Theorem C10_unmarshal_total : forall d, (exists s, unmarshal d = Ok s) \/ unmarshal d = Err.
+Proof. exact unmarshal_total. Qed.
+Print Assumptions C10_unmarshal_total.
+
+(** ApplyDefaults is a total function of schema and instance (its model has no error result) *)
+Theorem C10_apply_defaults_total : forall s j, exists j', ApplyDefaults s j = j'.
+Proof. intros s j. eexists. reflexivity. Qed.
 
 (** an unsupported $schema is an error, not a panic *)
 Theorem C10_validate_refuses : forall re_match hash n e inst,
